@@ -183,6 +183,24 @@ class _Subst(ast.NodeTransformer):
         node.args.kw_defaults = [self.visit(d) if d is not None else None for d in node.args.kw_defaults]
         return node
 
+    def _nested_def(self, node):
+        # a nested function's own parameters (and what it binds itself) shadow the helper's locals / parameters of the same name
+        a = node.args
+        own = {x.arg for x in a.posonlyargs + a.args + a.kwonlyargs} | ({a.vararg.arg} if a.vararg else set()) | ({a.kwarg.arg} if a.kwarg else set())
+        nonloc = {n_ for st in ast.walk(node) if isinstance(st, ast.Nonlocal) for n_ in st.names}
+        own |= {x.id for st in node.body for x in ast.walk(st) if isinstance(x, ast.Name) and isinstance(x.ctx, ast.Store)} - nonloc
+        inner = _Subst({k: v for k, v in self.mapping.items() if k not in own}, {k: v for k, v in self.rename.items() if k not in own})
+        node.body = [inner.visit(st) for st in node.body]
+        node.args.defaults = [self.visit(d) for d in node.args.defaults]
+        node.args.kw_defaults = [self.visit(d) if d is not None else None for d in node.args.kw_defaults]
+        node.decorator_list = [self.visit(d) for d in node.decorator_list]
+        if node.name in self.rename:
+            node.name = self.rename[node.name]
+        return node
+
+    visit_FunctionDef = _nested_def
+    visit_AsyncFunctionDef = _nested_def
+
     def visit_Nonlocal(self, node):
         return None
 
@@ -691,7 +709,46 @@ def inline_new_helpers(trees: Dict[str, ast.Module], known: Set[str]) -> List[st
             ast.fix_missing_locations(t)
         if not changed:
             break
+    if expanded:
+        for t in trees.values():
+            for fn in [n for n in ast.walk(t) if isinstance(n, FuncDef)]:
+                _fold_generated_aliases(fn)
+            ast.fix_missing_locations(t)
     return expanded
+
+
+def _fold_generated_aliases(fn) -> None:
+    """`T = __helper__x` (the hand-over of an expanded helper's result: T bound only here, the generated local never bound afterwards) is
+    folded: the generated local takes the caller's name, so that what the helper built is known under the name the caller uses."""
+    def run(stmts: List[ast.stmt]) -> bool:
+        for i, st in enumerate(stmts):
+            if isinstance(st, ast.Assign) and len(st.targets) == 1 and isinstance(st.targets[0], ast.Name) and isinstance(st.value, ast.Name) \
+                    and st.value.id.startswith("__") and "__" in st.value.id[2:] and not st.value.id.endswith("__"):
+                T, S = st.targets[0].id, st.value.id
+                names = [n for n in ast.walk(fn) if isinstance(n, ast.Name)]
+                t_stores = [n for n in names if n.id == T and isinstance(n.ctx, ast.Store)]
+                after = [x for later in stmts[i + 1:] for x in ast.walk(later) if isinstance(x, ast.Name) and x.id == S and isinstance(x.ctx, ast.Store)]
+                t_before = [n for n in names if n.id == T and n is not st.targets[0] and getattr(n, "lineno", 0) < getattr(st, "lineno", 0)
+                            and not any(n is y for later in stmts[i + 1:] for y in ast.walk(later))]
+                if len(t_stores) == 1 and not after and not t_before:
+                    for n in names:
+                        if n.id == S:
+                            n.id = T
+                    del stmts[i]
+                    return True
+            for fld in ("body", "orelse", "finalbody"):
+                v = getattr(st, fld, None)
+                if isinstance(v, list) and v and isinstance(v[0], ast.stmt) and not isinstance(st, (ast.FunctionDef, ast.AsyncFunctionDef, ast.ClassDef)):
+                    if run(v):
+                        return True
+            if isinstance(st, ast.Try):
+                for h in st.handlers:
+                    if run(h.body):
+                        return True
+        return False
+    for _ in range(12):
+        if not run(fn.body):
+            break
 
 
 def _split_record_sites(fn, records) -> None:
